@@ -340,6 +340,12 @@ theorem View.layout_lin (v : View ν α) : v.WF → ∀ order, v.layout = .ok (.
   | matrixOf s r c ih =>
     intro hw order hl
     exact lin_matrixOf s r c hw (ih (by simp only [View.WF] at hw; exact hw.1)) order hl
+  | tmap s ih =>
+    intro hw order hl
+    simp only [View.WF] at hw
+    simp only [View.layout] at hl
+    obtain ⟨P, leaf, data, h1, h2, h3, h4, h5, h6, h7⟩ := ih hw order hl
+    exact ⟨P, leaf, data, h1, h2, h3, h4, h5, h6, h7⟩
   | range s rs ih => intro _ order hl; simp [View.layout] at hl
   | mask s ms ih => intro _ order hl; simp [View.layout] at hl
   | index s p ih => intro _ order hl; simp [View.layout] at hl
